@@ -101,12 +101,22 @@ def judge(cfg, events, results, props=None):
     enter_count = 0
     fw_expected = []
 
+    cur = {"syn": []}
+
     def viol(p, i, msg):
         if p in props:
             out.append((p, i, msg))
+        # C07 ("a firmware-style reading of a synthesised command yields exactly the intended
+        # values"): a position / extruder / deferred-content mismatch in a step whose output
+        # contains synthesised commands is also a C07 violation
+        if "C07" in props and p in ("C03", "C04", "C06") and cur["syn"]:
+            out.append(("C07", i, "reading the synthesised commands %r does not give the intended values: %s"
+                        % (cur["syn"], msg)))
 
     for i, (ev, res) in enumerate(zip(events, results)):
         outs = forwarded(ev, res)
+        cur["syn"] = [o for o in outs if not (ev[0] == "g" and o == ev[1])
+                      and o not in scripts_enter and o not in scripts_exit]
         if res[0] == "err":
             viol("C09", i, "exception %s on %r" % (res[1], ev))
             break
